@@ -73,7 +73,7 @@ class Router:
                             const.BLOBEnable.ALSO,
                             const.BLOBEnable.ONLY,
                         )
-                    ) or (not is_blob and client_blob_policy == const.BLOBEnable.NEVER):
+                    ) or (not is_blob and client_blob_policy != const.BLOBEnable.ONLY):
                         client.message_from_device(message)
 
     def process_enable_blob(self, message: EnableBLOB, sender: SenderType):
